@@ -273,15 +273,16 @@ Example emit_roundtrip_example :
      "(design (rename design_1 ""design 1"") (cellref top_cell (libraryref work))))")%string).
 Proof. vm_compute. repeat split. Qed.
 
-(* outside [writable] (open finding: a bus whose identifier starts with "&_"): the checker says no *)
+(* a bus whose identifier starts with "&_" (refused by [writable] until the reader repair 9b86b49 of finding K4): it is
+   writable and the checker says yes *)
 Definition ex_amp : nvfile :=
   mkfile (S_ "t") (S_ "t")
     [mklib (S_ "work") (S_ "work")
        [mkcell (S_ "t") (S_ "t") None [mkport (S_ "a") (S_ "a") 1 2 true] []
           [(S_ "$b", S_ "&_b", mkcab 0 false [[PTop (S_ "a") 0]; [PTop (S_ "a") 1]])]]]
     (Some (mktop (S_ "t") (S_ "t") (S_ "work") (S_ "t"))).
-Example emit_roundtrip_amp_bus_fails :
-  writable ex_amp = false /\ rt_check ex_ts None [] ex_amp = false /\ rt_status ex_ts None [] ex_amp = 3.
+Example emit_roundtrip_amp_bus_holds :
+  writable ex_amp = true /\ rt_check ex_ts None [] ex_amp = true /\ rt_status ex_ts None [] ex_amp = 0.
 Proof. vm_compute. repeat split. Qed.
 
 (* a float property (2.5e-09, a parameter of the writer model) is written as (number (e 25 -10)); the
